@@ -251,7 +251,10 @@ fn eval_conc_case_plain(e: &ConcEval<'_>, case: &ConcCase, want_sample: bool) ->
 // generator configurations
 
 fn base_world() -> WorldCfg {
-	WorldCfg::default()
+	// zero-sized members (an owned collection without locks, at the address of
+	// a leaf) are part of every sequential world: the library's loops over a
+	// flattened lock list meet entries that are not locks
+	WorldCfg { p_zst_member: 10, ..WorldCfg::default() }
 }
 
 pub fn seq_cfg_general() -> SeqCfg {
@@ -316,7 +319,7 @@ pub fn run_check(prop: &str, tier: Tier, seed: u64) -> i32 {
 
 fn c06(tier: Tier, seed: u64) -> i32 {
 	let mut ctx = CheckCtx::new("C06", "exploration", tier, seed);
-	ctx.rule = "SEQ histories decoded from proptest byte vectors (16 runners, seeds f(VERIF_SEED, worker)) over the key-affecting vocabulary (get/drop/forget key, lock/try_lock/read/try_read incl. failures, unlock fns, guard drop/forget, scoped_* with lent and owned key, panicking closures and guards, poisoned results) on 1-2 threads; after every step and inside every closure ThreadKey::get() is compared with the reference model 'key alive'. Non-trivial = the history moved a key through a carrier (guard, failed try, owned-key scoped call, unwinding) and performed a later GetKey; distinct = hash of the decoded case.".into();
+	ctx.rule = "SEQ histories decoded from proptest byte vectors (16 runners, seeds f(VERIF_SEED, worker)) over the key-affecting vocabulary (get/drop/forget key, key parked as the data of a lock inside 10 kinds of owning containers which are then dropped / leaked / taken apart by into_inner, into_child or get_mut, lock/try_lock/read/try_read incl. failures, unlock fns, guard drop/forget, scoped_* with lent and owned key, panicking closures and guards, poisoned results) on 1-2 threads; after every step and inside every closure ThreadKey::get() is compared with the reference model 'key alive'. Non-trivial = the history moved a key through a carrier (guard, failed try, owned-key scoped call, unwinding) and performed a later GetKey; distinct = hash of the decoded case.".into();
 	let (cfg, opts) = seq_profile("C06").unwrap();
 	let nontrivial = |case: &SeqCase, r: &RunResult| {
 		let carrier = has(r, "acquire.") || has(r, "panic_") || has(r, "forget_");
@@ -350,6 +353,8 @@ fn c06(tier: Tier, seed: u64) -> i32 {
 	ctx.require_label("panic_in_scoped", 50);
 	ctx.require_label("forget_", 50);
 	ctx.require_label("try_failed", 50);
+	ctx.require_label("park_drop", 50);
+	ctx.require_label("park_apart", 50);
 	ctx.finish()
 }
 
@@ -565,6 +570,22 @@ fn c05(tier: Tier, seed: u64) -> i32 {
 	});
 	conc_campaign(&mut ctx, "C05", tier);
 	types_half(&mut ctx, "C05", tier, "types-holds-stay-on-the-thread-that-took-them");
+	// releases that go wrong in the raw lock: C12's fault enumeration (one-shot
+	// at every index, persistent faults on one and on two members), read for
+	// what it says about the OTHER holds of the call - each released exactly
+	// once, nothing released that the caller does not hold
+	{
+		let n = tier.pick(30_000, 800_000);
+		ctx.search("seq-releases-under-raw-faults", n, 160, |bytes, want| {
+			let mut rep = c12_eval(bytes, want);
+			let keep = c05_from_c12(rep.violations.drain(..).collect());
+			if keep.is_empty() {
+				rep.replay = None;
+			}
+			rep.violations = keep;
+			rep
+		});
+	}
 	ctx.require_label("released_multi", 500);
 	ctx.require_label("rollback", 100);
 	ctx.finish()
@@ -613,12 +634,7 @@ fn c17(tier: Tier, seed: u64) -> i32 {
 		let n = tier.pick(40_000, 1_000_000);
 		ctx.search("seq-debug-under-raw-faults", n, 160, |bytes, want| {
 			let mut rep = c12_eval(bytes, want);
-			let keep: Vec<Finding> = rep
-				.violations
-				.drain(..)
-				.filter(|f| f.sig.contains("|debug|"))
-				.map(|f| Finding { prop: "C17", sig: format!("disturbs|debug|raw-panic|{}", f.sig), ..f })
-				.collect();
+			let keep = c17_from_c12(rep.violations.drain(..).collect());
 			if keep.is_empty() {
 				rep.replay = None;
 			}
@@ -628,6 +644,26 @@ fn c17(tier: Tier, seed: u64) -> i32 {
 	}
 	ctx.require_label("nonacq_transient_raw_ops", 200);
 	ctx.finish()
+}
+
+/// C12 findings about `{:?}` read as C17 findings
+fn c17_from_c12(v: Vec<Finding>) -> Vec<Finding> {
+	v.into_iter()
+		.filter(|f| f.prop == "C12" && f.sig.contains("|debug|"))
+		.map(|f| Finding { prop: "C17", sig: format!("disturbs|debug|raw-panic|{}", f.sig), ..f })
+		.collect()
+}
+
+/// C12 findings that are about a hold which is not released exactly once, or
+/// about a release of a lock the caller does not hold, read as C05 findings
+fn c05_from_c12(v: Vec<Finding>) -> Vec<Finding> {
+	v.into_iter()
+		.filter(|f| f.prop == "C12" && (f.sig.starts_with("leak|") || f.sig.starts_with("holds-faulted-lock|") || f.sig.starts_with("illegal-release:")))
+		.map(|f| {
+			let what = if f.sig.starts_with("illegal-release:") { "released-without-holding" } else { "not-released" };
+			Finding { prop: "C05", sig: format!("{what}|raw-panic|{}", f.sig), ..f }
+		})
+		.collect()
 }
 
 // ---------------------------------------------------------------------------
@@ -673,10 +709,16 @@ pub fn replay_findings(path: &str, verbose: bool) -> Result<(String, Vec<Finding
 			if prop == "C07" {
 				f.extend(c07_eval(&case, &r).0);
 			}
-			if prop == "C12" {
+			if c.get("c12").is_some() {
 				let api = c["c12"]["api"].as_str().unwrap_or("?").to_string();
 				let kind = c["c12"]["kind"].as_str().unwrap_or("?").to_string();
-				f.extend(c12_findings(&case, &api, &kind, &r));
+				let cf = c12_findings(&case, &api, &kind, &r);
+				match prop.as_str() {
+					"C12" => f.extend(cf),
+					"C17" => f.extend(c17_from_c12(cf)),
+					"C05" => f.extend(c05_from_c12(cf)),
+					_ => {}
+				}
 			}
 			f.extend(post_findings(&prop, &AnyCase::Seq(case), &r));
 			f
@@ -1252,6 +1294,30 @@ pub fn c12_eval(bytes: &[u8], want: bool) -> CaseReport {
 				_ => crate::exec::Op::TryLock.bit() | crate::exec::Op::TryLockSh.bit(),
 			};
 			plans.push(FaultPlan { one_shot: None, persistent: vec![(l, mask)] });
+		}
+		// two members that misbehave at once (the second panic arrives while
+		// the first one is being handled)
+		let mut distinct = tflat.clone();
+		distinct.sort();
+		distinct.dedup();
+		// only for calls that release through the library's own loop (scoped
+		// calls, rollbacks inside them, `{:?}`): a guard whose drop glue meets
+		// two panicking destructors aborts the process by language rule
+		let no_guard = matches!(faulted_step, Step::Scoped { .. } | Step::Debug { .. });
+		if distinct.len() >= 2 && no_guard {
+			let a = src.pick(distinct.len());
+			let mut b = src.pick(distinct.len() - 1);
+			if b >= a {
+				b += 1;
+			}
+			let rel = crate::exec::Op::Unlock.bit() | crate::exec::Op::UnlockSh.bit();
+			let mask2 = |k: usize| match k {
+				0 => rel,
+				1 => rel | crate::exec::Op::TryLock.bit() | crate::exec::Op::TryLockSh.bit(),
+				_ => 0x3f,
+			};
+			let (ma, mb) = (mask2(src.pick(3)), mask2(src.pick(3)));
+			plans.push(FaultPlan { one_shot: None, persistent: vec![(distinct[a], ma), (distinct[b], mb)] });
 		}
 	}
 	for plan in plans {
@@ -1971,6 +2037,7 @@ pub fn seq_profile(prop: &str) -> Option<(SeqCfg, Opts)> {
 			cfg.w.p_probe_in_body = 150;
 			cfg.w.p_unwinding_drop = 40;
 			cfg.w.p_owned_key = 128;
+			cfg.w.park_key = 3;
 			cfg.world.max_colls = 3;
 			let opts = Opts::default();
 			Some((cfg, opts))
